@@ -254,11 +254,17 @@ func unmarshalFileStat(flags uint32, b []byte) (*FileStat, []byte, error) {
 }
 
 func unmarshalStatus(id uint32, data []byte) error {
-	sid, data := unmarshalUint32(data)
+	sid, data, err := unmarshalUint32Safe(data)
+	if err != nil {
+		return err
+	}
 	if sid != id {
 		return &unexpectedIDErr{id, sid}
 	}
-	code, data := unmarshalUint32(data)
+	code, data, err := unmarshalUint32Safe(data)
+	if err != nil {
+		return err
+	}
 	msg, data, _ := unmarshalStringSafe(data)
 	lang, _, _ := unmarshalStringSafe(data)
 	return &StatusError{
